@@ -18,7 +18,7 @@
    correspondence run.
 
    Deviations from ES5 reproduced by this model (classes in C13/Corr.v):
-     4  escape("@") is "%40"           (B.2.1 leaves @ unescaped)
+     (4  escape("@") = "%40" was repaired by d183de8; class retired)
      5  escape of an astral character writes only the high surrogate
      6  unescape copies the UTF-8 BYTES of a non-ASCII character as Latin-1
      7  unescape("%uD83D%uDE00"): surrogate escapes become U+FFFD
@@ -154,14 +154,13 @@ Definition decode_model (reserve : bool) (l : list Z) : option (list Z) :=
    All false on the recorded tree.  When a repair is applied to otto, the
    coordinator flips its switch (and removes the matching ..._refuted theorem
    and the open finding), so that the model keeps describing the code. *)
-Definition fixed_escape_at : bool := false.       (* C13-escape-at.diff *)
 Definition fixed_escape_astral : bool := false.   (* C13-escape-astral.diff *)
 Definition fixed_unescape_units : bool := false.  (* C13-unescape-units.diff *)
 
 (* ---------- escape ---------- *)
-(* builtinShouldEscape: A-Z a-z 0-9 * _ + - . /   (no '@') *)
+(* builtinShouldEscape: A-Z a-z 0-9 @ * _ + - . / *)
 Definition otto_no_escape (c : Z) : bool :=
-  is_alpha c || is_dec c || mem c [42; 95; 43; 45; 46; 47] || (fixed_escape_at && (c =? 64)).
+  is_alpha c || is_dec c || mem c [64; 42; 95; 43; 45; 46; 47].
 (* the byte loop visits exactly the first byte of every rune (it advances by the
    rune width when it escapes, and a byte it copies is an ASCII rune) *)
 Definition escape_u16 (u : Z) : list Z := if u <? 256 then pct u else pct_u u.
